@@ -36,6 +36,15 @@ Theorem C12_sorted_dump_idempotent : forall (l : list (N * entry)),
 Proof. exact sorted_entries_idem. Qed.
 Print Assumptions C12_sorted_dump_idempotent.
 
+(* ... and so is the text written: whatever object identities the entries carry and in whatever order the previous
+   Manifest or the directory walk delivered them, a sorted save dumps the same text *)
+Theorem C12_sorted_text_canonical : forall (l1 l2 : list (N * entry)),
+  Forall wfe (map snd l1) -> Permutation (map snd l1) (map snd l2) ->
+  (forall a b, In a (map snd l1) -> In b (map snd l1) -> ekey a = ekey b -> a = b) ->
+  dump_entries (map snd (py_sorted cmp_ie l1)) = dump_entries (map snd (py_sorted cmp_ie l2)).
+Proof. intros l1 l2 H1 H2 H3. f_equal. exact (sorted_entry_list_canonical l1 l2 H1 H2 H3). Qed.
+Print Assumptions C12_sorted_text_canonical.
+
 (* the checksum names of an entry are written in an order that does not depend on the dict order *)
 Theorem C12_checksum_order_canonical : forall l1 l2 : list (list N),
   Permutation l1 l2 -> py_sorted ustr_ltb l1 = py_sorted ustr_ltb l2.
